@@ -43,7 +43,7 @@ def filtered_inputs(ck):
     jobs.append((random.Random(ck.rng.getrandbits(48)), ['file_rename_over', 'file_rename_over', 'file_modify', 'file_rename_over']))
     with concurrent.futures.ThreadPoolExecutor(max_workers=3) as ex:
         for obs, V in ex.map(lambda a: watchrun.filter_scenario(a[0], n_ops=10, tag='C06f%d' % a[0].getrandbits(20), ops=a[1]), jobs):
-            ck.count(('filtered-inputs', tuple(obs['ops'])), sample={'operations': obs['ops'], 'runs(filtered, unfiltered, single file, dir+file)': obs['runs']})
+            ck.count(('filtered-inputs', tuple(obs['ops'])), sample={'operations': obs['ops'], 'runs(filtered, unfiltered, single file, dir+file, file next to dir)': obs['runs']})
             for text in V.get('C16', []):
                 if 'did not trigger' in text or 'exited' in text:
                     ck.violation({'kind': 'real-watcher', 'what': 'a change to a declared input was never rebuilt: ' + text,
